@@ -5,7 +5,7 @@
 (* remove_all.                                                             *)
 (*                                                                         *)
 (* A world is one WBS with tasks 1..NT in depth-first order:               *)
-(*   W = [par, kids, roots, ids, attrs]   attrs[t] = [name |-> value]      *)
+(*   W = [par, kids, roots, ids, attrs, pre, suc]  attrs[t] = [name |-> v]  *)
 (* Values are tagged: [k |-> "int", v |-> i] | [k |-> "str", v |-> <<..>>] *)
 (* (strings are sequences over the alphabet 1..2) | [k |-> "none"] |        *)
 (* [k |-> "absent"] (the task has no such attribute).                       *)
@@ -98,12 +98,24 @@ ListOf(W, l) ==
       [] l.kind = "tasks"        -> DfsQ(W, W.roots)
       [] l.kind = "children"     -> W.kids[l.t]
       [] l.kind = "all_children" -> DfsQ(W, W.kids[l.t])
+      [] l.kind = "preds"        -> W.pre[l.t]           \* task.predecessors, in list order
+      [] l.kind = "succs"        -> W.suc[l.t]
 
 (* remove_all on a mutable list (roots, children, WBS): the matching tasks leave with their subtrees *)
 RanQ(s) == {s[i] : i \in DOMAIN s}
 RECURSIVE UnderQ(_, _)
 UnderQ(W, t) == {t} \cup UNION {UnderQ(W, c) : c \in RanQ(W.kids[t])}
+(* remove_all on a link list unlinks the matching tasks (both ends), nothing else *)
+AfterUnlink(W, l, qry) ==
+    LET M == RanQ(Select(W, ListOf(W, l), qry))
+        keep(s, X) == SelectSeq(s, LAMBDA x : x \notin X)
+    IN  IF l.kind = "preds"
+        THEN [W EXCEPT !.pre = [t \in DOMAIN W.pre |-> IF t = l.t THEN keep(W.pre[t], M) ELSE W.pre[t]],
+                       !.suc = [t \in DOMAIN W.suc |-> IF t \in M THEN keep(W.suc[t], {l.t}) ELSE W.suc[t]]]
+        ELSE [W EXCEPT !.suc = [t \in DOMAIN W.suc |-> IF t = l.t THEN keep(W.suc[t], M) ELSE W.suc[t]],
+                       !.pre = [t \in DOMAIN W.pre |-> IF t \in M THEN keep(W.pre[t], {l.t}) ELSE W.pre[t]]]
 AfterRemoveAll(W, l, qry) ==
+    IF l.kind \in {"preds", "succs"} THEN AfterUnlink(W, l, qry) ELSE
     LET cand == IF l.kind = "wbs" THEN DfsQ(W, W.roots) ELSE ListOf(W, l)
         M    == RanQ(Select(W, cand, qry))
         \* a match below another match leaves with it and stays attached to it
@@ -113,6 +125,7 @@ AfterRemoveAll(W, l, qry) ==
                   !.kids  = [t \in DOMAIN W.kids |-> drop(W.kids[t])],
                   !.par   = [t \in DOMAIN W.par |-> IF t \in top THEN 0 ELSE W.par[t]]]
 Gone(W, l, qry) ==       \* tasks that are no longer members afterwards
+    IF l.kind \in {"preds", "succs"} THEN {} ELSE
     LET cand == IF l.kind = "wbs" THEN DfsQ(W, W.roots) ELSE ListOf(W, l)
     IN  UNION {UnderQ(W, m) : m \in RanQ(Select(W, cand, qry))}
 =============================================================================
